@@ -371,6 +371,7 @@ func TestReplayChild(t *testing.T) {
 	}
 	defer rep.Close()
 	seed := int(vutil.Seed())
+	startWatchdog(watchdogLimit())
 	i := -1
 	err = vutil.ReadNDJSON(os.Getenv("VERIF_CASES"), func(line []byte) error {
 		i++
@@ -382,6 +383,7 @@ func TestReplayChild(t *testing.T) {
 			return err
 		}
 		prog.WriteAt([]byte(fmt.Sprintf("%-12d", i)), 0)
+		watchdogProgress(i)
 		mm, diverted, infra := replayIn(t, &c, i+seed)
 		switch {
 		case infra != nil:
@@ -487,6 +489,9 @@ func runChildren(t *testing.T, out *vutil.Out, childTest string, ncases int, cas
 					return
 				}
 				sig, what, verdict := classifyCrash(buf.String())
+				if f, ok := hangOf(buf.String()); ok {
+					sig, what, verdict = "clientlife-hang:"+f, "the client never became quiescent: a goroutine waits for a lock inside package ssh ("+f+") while nothing is running", true
+				}
 				if !verdict {
 					fatal = append(fatal, fmt.Sprintf("x04 child crashed at case %d, not attributable to package ssh (%s):\n%s", last, what, tail(buf.String(), 6000)))
 					mu.Unlock()
